@@ -67,8 +67,14 @@ PTAB = {
           {'w1': (1, True), 'w2': (2, False), 'w3': (9, True)}),
 }
 # error class id -> SECoP name on the wire; python class expected (None: any generic SECoPError)
-ETAB = {'HardwareError': 'HardwareError', 'WrongType': 'WrongTypeError', 'CommunicationFailed': 'CommunicationFailedError',
-        'RangeError': 'RangeError', 'Bogus': None, 'BadValue': None}
+# (the whole SECoP error table; InternalError is the generic class an unknown name is rebuilt to as well)
+ETAB = {'ProtocolError': 'ProtocolError', 'NoSuchModule': 'NoSuchModuleError', 'NoSuchParameter': 'NoSuchParameterError',
+        'NoSuchCommand': 'NoSuchCommandError', 'CommandFailed': 'CommandFailedError', 'CommandRunning': 'CommandRunningError',
+        'ReadOnly': 'ReadOnlyError', 'RangeError': 'RangeError', 'WrongType': 'WrongTypeError', 'BadJSON': 'BadJSONError',
+        'CommunicationFailed': 'CommunicationFailedError', 'TimeoutError': 'TimeoutSECoPError', 'HardwareError': 'HardwareError',
+        'IsBusy': 'IsBusyError', 'IsError': 'IsErrorError', 'Disabled': 'DisabledError', 'Impossible': 'ImpossibleError',
+        'ReadFailed': 'ReadFailedError', 'OutOfRange': 'OutOfRangeError', 'NotImplemented': 'NotImplementedSECoPError',
+        'InternalError': None, 'Bogus': None, 'BadValue': None}
 TEXTS = {'t1': 'sensor failed', 't2': 'device: no answer (code 5)', 'tp': 'RangeError: sensor failed'}
 
 
@@ -114,6 +120,18 @@ def a_value(pname, v):
     return EXPECT.get(pname, {}).get(k, '?' + k)
 
 
+def _eq_probe(e):
+    """a rebuilt error must be comparable (readParameter compares the reply's error with the cached one) and equal
+    to a second rebuild from the same report"""
+    try:
+        again = type(e)(*e.args)
+        if not (e == again) or e != again:
+            return '?not equal to a second rebuild (%s)' % type(e).__name__
+    except Exception as x:
+        return '?comparison raises %s (%s)' % (type(x).__name__, type(e).__name__)
+    return None
+
+
 def a_error(e):
     from frappy.errors import SECoPError
     cls = None
@@ -122,6 +140,7 @@ def a_error(e):
             cls = eid
     if cls is None:
         cls = 'generic' if isinstance(e, SECoPError) else '?' + type(e).__name__
+    cls = _eq_probe(e) or cls
     txt = e.args[0] if len(e.args) == 1 else repr(e.args)
     return cls, TEXT_ID.get(txt, '?' + str(txt))
 
@@ -534,7 +553,7 @@ def _msg_class(st):
 
 R_MODS = ['m1', 'm2', 'm3']
 R_PNAMES = ['value', 'target', 'x', 'y', 's']
-R_ENAMES = ['HardwareError', 'WrongType', 'CommunicationFailed', 'Bogus', 'BadValue']
+R_ENAMES = list(ETAB)
 R_SHAPES = ['short', 'scalar', 'badq', 'badt', 'nodata', 'badtext']
 
 
@@ -566,8 +585,10 @@ def _random_trace(seed_n):
             else:
                 m, p = rnd.choice(R_MODS + ['zz']), rnd.choice(R_PNAMES + ['zz', 'cmd', ''])
             iserr = rnd.random() < 0.3
-            action = rnd.choice(['error_update', 'error_read']) if iserr else rnd.choice(['update', 'update', 'reply', 'changed'])
+            action = rnd.choice(['error_update', 'error_read', 'error_change']) if iserr else rnd.choice(['update', 'update', 'reply', 'changed'])
             shape = rnd.choice(['ok', 'ok', 'okq']) if rnd.random() < 0.85 else rnd.choice(R_SHAPES)
+            if action == 'error_change':
+                shape = 'ok'
             msg = {'action': action, 'ident': [m, p], 'shape': shape, 'w': 'w1', 't': NOT, 'en': 'HardwareError', 'tx': 't1'}
             if shape in ('ok', 'okq'):
                 msg['t'] = rnd.choice([NOT, rnd.randint(0, 30), max(0, now - rnd.randint(0, 3)), now])
@@ -576,6 +597,8 @@ def _random_trace(seed_n):
                     msg['tx'] = rnd.choice(['t1', 't2', 'tp'])
                 else:
                     msg['w'] = rnd.choice(['w1', 'w2', 'w3', 'w1', 'w2', 'w3', 'wbad'])
+            if action == 'error_change':
+                msg['t'] = NOT
             steps.append({'ev': 'recv', 'msg': msg})
         elif r < 0.76:
             lv = rnd.choice([['', ''], [rnd.choice(R_MODS), ''], list(rnd.choice(desc)) if desc else ['m1', 'value'],
@@ -612,6 +635,11 @@ def _random_trace(seed_n):
         else:
             desc = _rand_desc(rnd)
             steps.append({'ev': 'descr', 'desc': [list(k) for k in desc]})
+    return _record(w, steps)
+
+
+def _record(w, steps):
+    """run the steps through the real receive loop and write down what TLC has to explain"""
     first_desc = w.desc
     obs = w.run(steps)
     done = [st for st in steps if not any(st is x for x in w.skipped)]
@@ -638,6 +666,30 @@ def _random_trace(seed_n):
 
 def _rec(e):
     return {'val': e[0], 'ts': e[1], 'err': {'cls': e[2], 'text': e[3]}}
+
+
+def _sweep_trace(seed):
+    """deterministic part of the histories: one error_update, error_read (with a waiting request) and error_change per
+    error class name of the SECoP table (and unknown names), with callbacks registered on all three levels"""
+    rnd = random.Random(seed)
+    w = MsgWorld([('m1', 'value'), ('m1', 'target'), ('m2', 'x')])
+    steps = [{'ev': 'register', 'cb': {'level': ['', ''], 'kind': 'updateItem', 'beh': 'ok'}, 'single': True},
+             {'ev': 'register', 'cb': {'level': ['m1', ''], 'kind': 'updateEvent', 'beh': 'ok'}, 'single': True},
+             {'ev': 'register', 'cb': {'level': ['m1', 'value'], 'kind': 'updateEvent', 'beh': 'ok'}, 'single': True}]
+    now = 0
+    for en in R_ENAMES:
+        def msg(action, ident, t):
+            return {'ev': 'recv', 'msg': {'action': action, 'ident': ident, 'shape': 'ok', 'w': 'w1', 't': t, 'en': en,
+                                          'tx': rnd.choice(['t1', 't2'])}}
+        steps += [{'ev': 'expect', 'rk': ['reply', ['m1', 'value']]}, msg('error_read', ['m1', 'value'], now),
+                  msg('error_update', ['m2', 'x'], NOT),
+                  {'ev': 'expect', 'rk': ['changed', ['m1', 'target']]}, msg('error_change', ['m1', 'target'], NOT),
+                  {'ev': 'recv', 'msg': {'action': 'update', 'ident': ['m1', 'value'], 'shape': 'ok', 'w': rnd.choice(['w1', 'w2']),
+                                         't': NOT, 'en': 'HardwareError', 'tx': 't1'}}]
+        if rnd.random() < 0.4 and now < 20:
+            now += 1
+            steps.append({'ev': 'tick', 'now': now})
+    return _record(w, steps)
 
 
 # ------------------------------------------------------------------ end to end (real nodes, real TCP)
@@ -1048,7 +1100,7 @@ class _Rig:
     def error(e):
         if e is None:
             return {'cls': '?no error', 'text': ''}
-        return {'cls': type(e).__name__, 'text': e.args[0] if len(e.args) == 1 else repr(e.args)}
+        return {'cls': _eq_probe(e) or type(e).__name__, 'text': e.args[0] if len(e.args) == 1 else repr(e.args)}
 
     @classmethod
     def readerror(cls, item):
@@ -1111,7 +1163,7 @@ def _e2e_batch(arg):
     import frappy.client
     import frappy.io
     import frappy.proxy
-    from frappy.errors import HardwareError, CommunicationFailedError
+    from frappy.errors import BadValueError, SECoPError
     rnd = random.Random(seed)
     frappy.client.SecopClient.__del__ = lambda self: None   # also the proxy's internal client
     frappy.io.HasIO.ioDict.clear()
@@ -1165,6 +1217,34 @@ def _e2e_batch(arg):
             finally:
                 TEXTSAFE = False
 
+        # every class of the SECoP error table (rebuilt on the client by its name) and one rebuilt by frappy's
+        # "Class: text" convention
+        errclasses = sorted(set(SECoPError.name2class.values()) | {BadValueError}, key=lambda c: c.__name__)
+
+        def raises(kind, cls, text, **extra):
+            """read error (direct, seen by the activated client, handed on by the proxy) and write error"""
+            raised = {'cls': cls.__name__, 'text': text}
+            drv.script[kind] = lambda: cls(text)
+            c, mod = clients['direct']
+            rig.request(dict({'op': 'readerr', 'kind': kind, 'path': 'direct', 'raised': raised}, **extra),
+                        lambda: c.readParameter(mod, kind), rig.readerror)
+            c, mod = clients['direct_active']
+            if rig.fence('direct_active', c):     # the error update reached the activated client
+                rig.observe(dict({'op': 'readerr', 'kind': kind, 'path': 'direct_active', 'raised': raised}, **extra), c, mod, None)
+            c, mod = clients['proxy']
+            if rig.fence('proxy', pxclient):
+                if active2 and rig.fence('proxy', c):     # ... and, through the proxy module, the client behind it
+                    rig.observe(dict({'op': 'readerr', 'kind': kind, 'path': 'proxy', 'raised': raised, 'how': 'update'}, **extra),
+                                c, mod, None)
+                rig.request(dict({'op': 'readerr', 'kind': kind, 'path': 'proxy', 'raised': raised}, **extra),
+                            lambda: c.readParameter(mod, kind), rig.readerror)
+            for path in ('direct', 'proxy'):
+                c, mod = clients[path]
+                sent_c = fresh(kind)[1]
+                rig.request(dict({'op': 'writeerr', 'kind': kind, 'path': path, 'raised': raised}, **extra),
+                            lambda: _caught(lambda: c.setParameter(mod, kind, sent_c)), rig.error)
+            drv.script[kind] = fresh(kind)[1]
+
         for kind in PKINDS:
             base = BASE.get(kind, kind)
             for i in range(n_per_kind):
@@ -1216,29 +1296,11 @@ def _e2e_batch(arg):
                             rig.observe({'op': 'announce', 'kind': kind, 'path': 'proxy', 'returned': val_a}, c, mod, base)
                         rig.request({'op': 'read', 'kind': kind, 'path': 'proxy', 'returned': val_a},
                                     lambda: c.readParameter(mod, kind), rig.item(base))
-            # -- the driver raises: read error (direct, then the proxy hands on what it was told), write error
-            cls = rnd.choice([HardwareError, CommunicationFailedError])
-            text = rnd.choice(['sensor %s failed' % kind, 'no answer: timeout'])
-            raised = {'cls': cls.__name__, 'text': text}
-            drv.script[kind] = lambda: cls(text)
-            c, mod = clients['direct']
-            rig.request({'op': 'readerr', 'kind': kind, 'path': 'direct', 'raised': raised},
-                        lambda: c.readParameter(mod, kind), rig.readerror)
-            c, mod = clients['direct_active']
-            if rig.fence('direct_active', c):     # the error update reached the activated client
-                rig.observe({'op': 'readerr', 'kind': kind, 'path': 'direct_active', 'raised': raised}, c, mod, None)
-            c, mod = clients['proxy']
-            if rig.fence('proxy', pxclient):
-                if active2 and rig.fence('proxy', c):     # ... and, through the proxy module, the client behind it
-                    rig.observe({'op': 'readerr', 'kind': kind, 'path': 'proxy', 'raised': raised, 'how': 'update'}, c, mod, None)
-                rig.request({'op': 'readerr', 'kind': kind, 'path': 'proxy', 'raised': raised},
-                            lambda: c.readParameter(mod, kind), rig.readerror)
-            for path in ('direct', 'proxy'):
-                c, mod = clients[path]
-                sent_c = fresh(kind)[1]
-                rig.request({'op': 'writeerr', 'kind': kind, 'path': path, 'raised': raised},
-                            lambda: _caught(lambda: c.setParameter(mod, kind, sent_c)), rig.error)
-            drv.script[kind] = fresh(kind)[1]
+            # -- the driver raises: one class of the error table per kind here, every class below
+            raises(kind, errclasses[(PKINDS.index(kind) + seed) % len(errclasses)],
+                   rnd.choice(['sensor %s failed' % kind, 'no answer: timeout']))
+        for cls in errclasses:
+            raises('int', cls, rnd.choice(['sensor failed', 'no answer: timeout (code 5)']), errclass=cls.__name__)
         # -- command without argument
         for path in ('direct', 'proxy'):
             c, mod = clients[path]
@@ -1345,8 +1407,9 @@ def _replay_raw(raw):
 def _behaviours(chk, quick):
     behs = []
     # wide alphabet to depth 2, callback-focused alphabet (one parameter, all levels / behaviours) one level deeper
-    for cfg in (('Gen_ClientCache_quick.cfg', 'Gen_ClientCache_cb_quick.cfg') if quick else
-                ('Gen_ClientCache_thorough.cfg', 'Gen_ClientCache_cb_thorough.cfg')):
+    # ... and one parameter x every error class name of the SECoP table in error_update / error_read / error_change
+    for cfg in (('Gen_ClientCache_quick.cfg', 'Gen_ClientCache_cb_quick.cfg', 'Gen_ClientCache_err.cfg') if quick else
+                ('Gen_ClientCache_thorough.cfg', 'Gen_ClientCache_cb_thorough.cfg', 'Gen_ClientCache_err.cfg')):
         r = run_tlc('Gen_ClientCache', cfg, workers=1, timeout=1200)
         if r.violated or not r.ok:
             raise MachineryError('behaviour emission Gen_ClientCache/%s failed: %s\n%s' % (cfg, r.violated or r.error, r.out[-1500:]))
@@ -1409,13 +1472,14 @@ def run(chk):
     # 3 code -> spec, message level + end to end, one TLC run
     n = 300 if quick else 4000
     traces = pool_map(_random_trace, [(chk.seed * 100003 + i, 40 if quick else 60) for i in range(n)])
+    traces += [_sweep_trace(chk.seed + k) for k in range(1 if quick else 4)]
     lap('random_traces')
     nbatch, per_kind = (4, 6) if quick else (16, 50)
     e2e = pool_map(_e2e_batch, [(chk.seed * 7919 + i, per_kind, 40 if quick else 500, 1 if quick else 3) for i in range(nbatch)])
     aborted = [n['aborted'] for _, n in e2e if n.get('aborted')]
     lap('end_to_end')
     records = [r for recs, _ in e2e for r in recs]
-    e2e_traces = [[{k: v for k, v in r.items() if k not in ('concrete', 'attempts', 'how', 'errors', 'split', 'fenced')}] for r in records]   # one record = one trace
+    e2e_traces = [[{k: v for k, v in r.items() if k not in ('concrete', 'attempts', 'how', 'errors', 'split', 'fenced', 'errclass')}] for r in records]   # one record = one trace
     n0 = e2e[0][1] if e2e else {}
     if n0.get('proxy_class_error'):
         chk.violation({'module': 'E2E', 'site': 'proxy_class', 'clause': 'a command with a struct argument can be proxied'},
@@ -1447,7 +1511,7 @@ def run(chk):
                      r['op'] == 'write')
             if v is not None:
                 chk.violation({'module': 'E2E', 'kind': r['kind'], 'op': r['op'], 'clause': v[1], 'shape': _diff_shape(r),
-                               'via': 'proxy' if r['path'] == 'proxy' else 'direct'},
+                               'via': 'proxy' if r['path'] == 'proxy' else 'direct', **({'errclass': r['errclass']} if 'errclass' in r else {})},
                               {'record': r, 'path': r['path']})
     required = [('write', 'direct'), ('write', 'direct_active'), ('write', 'proxy'), ('read', 'direct'), ('read', 'proxy'),
                 ('writestr', 'direct'), ('do', 'direct'), ('do', 'proxy'), ('announce', 'direct_active'),
